@@ -275,7 +275,7 @@ pub fn line_of(rng: &mut Rng, frame: &[u8], deco: bool) -> Vec<u8> {
 
 pub const JUNK_KINDS: &[&str] = &[
     "empty", "blank", "text", "hex13", "hex15", "hex27", "hex29", "hex41", "hex-odd", "high-bytes", "nul",
-    "lone-cr", "overlong", "utf8-multibyte", "truncated-frame", "semicolon-only", "split-utf8", "pow2-len", "pow2-len", "ctrl-bytes", "ctrl-z", "bom", "overlong-frame-tail",
+    "lone-cr", "overlong", "utf8-multibyte", "truncated-frame", "semicolon-only", "split-utf8", "pow2-len", "pow2-len", "ctrl-bytes", "ctrl-z", "bom", "overlong-frame-tail", "utf16-bom", "greeting",
 ];
 
 /// A line (with newline) that is unambiguously *not* a frame: its hex-digit
@@ -302,7 +302,10 @@ pub fn junk(rng: &mut Rng, kind: &str) -> Vec<u8> {
         // first bytes of a multi-byte sequence, cut
         "split-utf8" => vec![b'*', 0xE2, 0x9C, b';'],
         "ctrl-bytes" => { let n = rng.range(1, 30); (0..n).map(|_| { let c = rng.range(1, 31) as u8; if c == b'\n' { 0x0B } else { c } }).collect() }
-        "ctrl-z" => { let mut x = b"zz".to_vec(); x.push(0x1A); x.extend(b"qq"); x }
+        "ctrl-z" => match rng.below(3) { 0 => vec![0x1A], 1 => { let mut x = vec![0x1A]; x.extend(b"qq zz"); x } _ => { let mut x = b"zz".to_vec(); x.push(0x1A); x.extend(b"qq"); x } },
+        "utf16-bom" => { let mut x = if rng.chance(0.5) { vec![0xFF, 0xFE] } else { vec![0xFE, 0xFF] }; for _ in 0..rng.range(0, 12) { x.push(*rng.pick(&[0u8, b'*', b'8', b'D', 0x00, b';'])); } x }
+        // what other services say first when one connects to the wrong port
+        "greeting" => rng.pick(&[&b"HTTP/1.1 400 Bad Request"[..], b"SSH-2.0-OpenSSH_9.6", b"220 mx.example.net ESMTP ready", b"* OK IMAP4rev1 ready", b"+OK POP3 ready", b"\xff\xfd\x18\xff\xfd\x20", b"RFB 003.008", b"-ERR unknown", b"{\"jsonrpc\":\"2.0\"}"]).to_vec(),
         "bom" => vec![0xEF, 0xBB, 0xBF, b'*', b';'],
         // a long non-hex filler, two stray digits, and a perfectly valid frame at the very end: as a whole
         // the line has 30 digits and is junk - a reader that cuts long lines would see the frame
